@@ -498,6 +498,13 @@ func vfCoreProps() map[string]*vfCoreProp {
 	return m
 }
 
+// E2 (vfe2_test.go) is a further stage of these checks
+var vfE2Props = map[string]bool{"C01": true, "C03": true, "C15": true, "C17": true}
+
+const vfE2Rule = "; concurrent stage (E2): history j = PRNG parameters splitmix(seed,'E2',prop,j) (18 quick / 400 thorough per property): one child process with the real clock and sweepers, 4-64 client goroutines over three front-ends (in-memory waiter, binary and text connections), rounds on fresh keys (exclusive, shared, mixed, expiring, value keys; churn profiles and a key-table micro-stress for C01/C17), hook points widened by Gosched / 0-2 ms sleeps; every call is recorded at the client boundary on one atomic logical clock with unique RequestIds and payloads and judged offline: reply ledger (C03), definite-overlap / held-unlock / solo rules and a porcupine counting-lock model per (key, round) (C01), porcupine register model with an anchor hold (C15), STATE vs census at barriers and after-drain reclaim (C17)"
+
+var vfE2Assumptions = []string{"E2: each client uses its own LockIds and never reuses a pending one; LockIds that ever asked for a short expiry are excluded from the definite rules; update flags, unlock-first, cancel, priority and require-ack are not generated (they are the sequential engine's matter); a porcupine time-out or a harness watchdog is inconclusive, never a violation; real threads: a replay re-judges the recorded history and re-runs its parameters, it cannot force the schedule"}
+
 func vfRunCoreCheck(t *testing.T, prop string) {
 	start := time.Now()
 	vfContinueAfterPanic = true
@@ -545,6 +552,15 @@ func vfRunCoreCheck(t *testing.T, prop string) {
 			part.Violate(vfViolation{Prop: prop, Clause: f.Clause, Detail: f.Detail, Case: i, Replay: wrote, Sig: f.Sig})
 		}
 	}
+	if env.Shard < 0 && vfE2IsReplay(env.Replay) {
+		// --replay of a history recorded by the concurrent stage (E2): re-judged and re-run by that stage only
+		part := vfNewPart()
+		part.known = vfLoadKnown(env)
+		vfE2Stage(env, prop, part)
+		spec := &vfSpec{Prop: prop, Level: "exploration", Rule: cp.Rule + vfE2Rule, NontrivSet: "nontrivial", Assumptions: append(append([]string{}, cp.Assumptions...), vfE2Assumptions...)}
+		vfFinish(t, env, spec, part, start)
+		return
+	}
 	part := vfRunSharded(t, env, "TestVerif_"+prop, n, vfNumCPU(), runCase)
 	if part == nil {
 		return // shard child
@@ -553,6 +569,13 @@ func vfRunCoreCheck(t *testing.T, prop string) {
 	// further stages of the property (other engines) report into the same part
 	if st := vfCoreStages[prop]; st != nil && env.Replay == "" {
 		st(env, part, spec)
+	}
+	if vfE2Props[prop] && env.Replay == "" {
+		// E2: concurrent stress stage (real clock and sweepers, recorded histories judged offline)
+		vfE2Stage(env, prop, part)
+		spec.Rule += vfE2Rule
+		spec.Floors = append(append([]string{}, spec.Floors...), "e2_histories_complete")
+		spec.Assumptions = append(append([]string{}, spec.Assumptions...), vfE2Assumptions...)
 	}
 	vfFinish(t, env, spec, part, start)
 }
